@@ -158,7 +158,7 @@ where
 
 def unaryGo (a : Act) (x : GV) : Res GV :=
   match a with
-  | .pos => if isNumTy x.ty then .ok x else .reject
+  | .pos => if isNumTy x.ty then finish x.v x.ty else .reject    -- the result of every constant operation is checked
   | .neg =>
     (match x.v with
      | .int v => if isIntTy x.ty then finish (.int (-v)) x.ty else .reject
@@ -166,8 +166,8 @@ def unaryGo (a : Act) (x : GV) : Res GV :=
      | _ => .reject)
   | .bitNot =>
     (match x.v, x.ty with
-     | .int v, .u .int => .ok ⟨.int (inot v), x.ty⟩
-     | .int v, .u .rune => .ok ⟨.int (inot v), x.ty⟩
+     | .int v, .u .int => finish (.int (inot v)) x.ty       -- the toolchain's limit applies: ^(1<<512 - 1) overflows
+     | .int v, .u .rune => finish (.int (inot v)) x.ty
      | .int v, .t (.i k) => if k.signed then .ok ⟨.int (inot v), x.ty⟩ else .ok ⟨.int ((2 ^ k.bits : Int) - 1 - v), x.ty⟩
      | _, _ => .reject)
   | .not => (match x.v with | .bool b => if isBoolTy x.ty then .ok ⟨.bool (!b), x.ty⟩ else .reject | _ => .reject)
@@ -223,7 +223,7 @@ def isCmp (a : Act) : Bool := a == .eq || a == .ne || a == .lt || a == .le || a 
 
 /-- value and type of a constant expression -/
 def evalGo (iota : Nat) : CExpr → Res GV
-  | .int v => .ok ⟨.int v, .u .int⟩
+  | .int v => if bitLen v > maxUntypedBits then .reject else .ok ⟨.int v, .u .int⟩   -- the toolchain's limit applies to literals too
   | .rune v => .ok ⟨.int v, .u .rune⟩
   | .flt q => .ok ⟨.flt q, .u .float⟩
   | .bool b => .ok ⟨.bool b, .u .bool⟩
